@@ -292,7 +292,7 @@ def run_shard(mod: Any, tier: str, seed: int, shard: int, nshards: int, out: str
     except BaseException as err:  # harness failure: never a verdict about the library
         ctx.inconclusive_because(
             f"harness error in shard {shard}: {type(err).__name__}: {err} "
-            f"@ {traceback.format_exc()[-600:]}"
+            f"@ {traceback.format_exc()[-400:]}"[:500]
         )
     tmp = out + ".tmp"
     with open(tmp, "w") as fh:
